@@ -438,7 +438,8 @@ def argreduce_preprocess(array, axis):
         idx,
         dtype=array.dtype,
         meta=array._meta,
-        name="groupby-argreduce-preprocess",
+        # a constant name would make the graphs of two arg-reductions collide when computed together
+        name="groupby-argreduce-preprocess-" + dask.base.tokenize(array, idx),
     )
 
 
